@@ -92,6 +92,13 @@ theorem listing_is_view_sqlite {s : Sqlite.St D} (hI : Sqlite.Inv s) (b : String
     (b, m) ∈ Sqlite.bucketsOf s ↔ ∃ es, Sqlite.view s b = some (m, es) :=
   Sqlite.bucketsOf_eq hI b m
 
+/-- no bucket id is listed twice -/
+theorem listing_keys_unique_sqlite {s : Sqlite.St D} (hI : Sqlite.Inv s) :
+    ((Sqlite.bucketsOf s).map (·.1)).Nodup := by
+  unfold Sqlite.bucketsOf
+  rw [List.map_map]
+  exact List.pairwise_map.mpr (hI.1.imp (fun h => h.1))
+
 /-- describing a bucket returns the metadata of the view -/
 theorem describe_is_view_sqlite {s : Sqlite.St D} (hI : Sqlite.Inv s) (b : String) :
     Sqlite.getMetadata s b =
@@ -192,6 +199,12 @@ theorem listing_is_view_memory {s : Memory.St D} (hI : Memory.Inv s) (b : String
     (b, m) ∈ Memory.bucketsOf s ↔ ∃ es, Memory.view s b = some (m, es) :=
   Memory.bucketsOf_eq hI b m
 
+theorem listing_keys_unique_memory {s : Memory.St D} (hI : Memory.Inv s) :
+    ((Memory.bucketsOf s).map (·.1)).Nodup := by
+  unfold Memory.bucketsOf
+  rw [List.map_map]
+  exact hI.1
+
 theorem describe_is_view_memory {s : Memory.St D} (hI : Memory.Inv s) (b : String) :
     Memory.getMetadata s b =
       (match Memory.view s b with | some (m, _) => .ok m | none => .error .valueError) :=
@@ -282,6 +295,12 @@ theorem missing_raises_and_unchanged_memory {s : Memory.St D} (hI : Memory.Inv s
 theorem listing_is_view_peewee {s : Peewee.St D} (hI : Peewee.Inv s) (b : String) (m : Meta) :
     (b, m) ∈ Peewee.bucketsOf s ↔ ∃ es, Peewee.view s b = some (m, es) :=
   Peewee.bucketsOf_eq hI b m
+
+theorem listing_keys_unique_peewee {s : Peewee.St D} (hI : Peewee.Inv s) :
+    ((Peewee.bucketsOf s).map (·.1)).Nodup := by
+  unfold Peewee.bucketsOf
+  rw [List.map_map]
+  exact hI.bids
 
 theorem describe_is_view_peewee {s : Peewee.St D} (hI : Peewee.Inv s) (b : String) :
     Peewee.getMetadata s b =
@@ -387,6 +406,9 @@ example : Sqlite.view (Sqlite.step (Sqlite.step Sqlite.exS (.deleteBucket "a")) 
     "a" = some (default, []) := recreate_is_empty_sqlite Sqlite.exS_inv rfl default
 example := missing_raises_and_unchanged_sqlite Sqlite.exS_inv (b := "zz") rfl
 example := create_listed_memory Memory.exSt_inv "c" Memory.exMeta
+/-- the memory backend's `create_bucket` over an existing id replaces the bucket by an empty one -/
+example : Memory.view (Memory.step Memory.exSt (.create "b" Memory.exMeta)) "b" =
+    some (Memory.exMeta, []) := (create_listed_memory Memory.exSt_inv "b" Memory.exMeta).1
 example := update_only_supplied_memory Memory.exSt_inv (b := "b") rfl { type := some "u" }
 example := delete_removes_bucket_and_events_memory Memory.exSt_inv (b := "b") rfl
 example := missing_raises_and_unchanged_memory Memory.exSt_inv (b := "zz") rfl
